@@ -41,7 +41,7 @@ NamedTD(id) ==
                                    FldO("Idx", <<73, 100, 120>>, <<"omitempty">>, TMap(TPtr(TNamed("RecTree"))))>>)
     \* types whose unfolding the user defines (gotype.Unfolders option / Expander), see ExpUser
     [] id = "UStr" -> TStruct(<<Fld("V", <<86>>, TScalar("string"))>>)
-    [] id = "UI64" -> TStruct(<<Fld("N", <<78>>, TScalar("int64"))>>)
+    [] id \in {"UI64", "USelf"} -> TStruct(<<Fld("N", <<78>>, TScalar("int64"))>>)
     [] id \in {"UPt", "UExp"} -> TStruct(<<Fld("X", <<88>>, TScalar("int64")), Fld("Y", <<89>>, TScalar("int64"))>>)
     [] id = "UObj" -> TStruct(<<Fld("K", <<75>>, TScalar("string")), Fld("N", <<78>>, TScalar("int64"))>>)
     [] id = "UProc" -> TStruct(<<Fld("N", <<78>>, TScalar("int64")), Fld("First", <<70, 105, 114, 115, 116>>, TScalar("int64"))>>)
@@ -305,9 +305,12 @@ ZeroPlain(T0) ==
 (*          the members k (string) and n (integer), each at most once      *)
 (*   UProc  processing unfolder: the array is unfolded into a []int64 cell,*)
 (*          then N = len(cell), First = cell[0]                            *)
+(*   USelf  processing unfolder whose cell is the target itself: the object *)
+(*          {n: v} is unfolded as for a plain struct, then N is multiplied  *)
+(*          by ten (small v only: no 64-bit multiplication in the model)    *)
 (* For every other stream value the user code returns an error or converts *)
 (* without a range check: unspecified.                                     *)
-UserUnfoldIds == {"UStr", "UI64", "UPt", "UExp", "UObj", "UProc"}
+UserUnfoldIds == {"UStr", "UI64", "UPt", "UExp", "UObj", "UProc", "USelf"}
 IsI64(sv) == sv.k = "int" /\ FitsKind(sv.v, "int64")
 UFld(j, val) == [key |-> <<j>>, val |-> val]
 MemberIdx(sv, name) == {j \in 1..Len(sv.v) : sv.v[j].key = name}
@@ -327,6 +330,11 @@ ExpUser(id, sv) ==
     [] id = "UProc" ->
          IF sv.k = "arr" /\ Len(sv.v) < 256 /\ \A j \in 1..Len(sv.v) : IsI64(sv.v[j])
          THEN VObj(<<UFld(1, EvInt(CUint(<<Len(sv.v)>>))), UFld(2, IF Len(sv.v) = 0 THEN EvInt(CZero) ELSE sv.v[1])>>, FALSE) ELSE Unspec
+    [] id = "USelf" ->
+         LET nn == IF sv.k = "obj" THEN MemberIdx(sv, <<110>>) ELSE {} IN
+         IF sv.k = "obj" /\ Len(sv.v) = 1 /\ Cardinality(nn) = 1 /\ sv.v[1].val.k = "int" /\ sv.v[1].val.v[1] = 0
+            /\ (\A j \in 2..8 : sv.v[1].val.v[j] = 0) /\ sv.v[1].val.v[9] < 25
+         THEN VObj(<<UFld(1, EvInt(CUint(<<sv.v[1].val.v[9] * 10>>)))>>, FALSE) ELSE Unspec
     [] OTHER -> Unspec
 
 RECURSIVE Exp(_, _, _), ExpFields(_, _, _)
